@@ -33,7 +33,7 @@ func (readSched) Runs(tier string) int64 {
 	if tier == "thorough" {
 		return 300000
 	}
-	return 1500
+	return 6000
 }
 
 func (readSched) Meta() core.EngineMeta {
